@@ -154,7 +154,7 @@ func nodeConf(dir string) *viper.Viper {
 	// at every start of the directory
 	conf.Set("pex_reactor", false)
 	conf.Set("mempool_broadcast", false)
-	conf.Set("timeout_propose", 2000)
+	conf.Set("timeout_propose", 5000)
 	conf.Set("timeout_propose_delta", 100)
 	conf.Set("timeout_prevote", 100)
 	conf.Set("timeout_prevote_delta", 50)
@@ -283,8 +283,9 @@ func (r *runner) watchdog() {
 			}()
 			select {
 			case rs := <-done:
-				if i := strings.Index(rs, "\n"); i > 0 && len(rs) > 400 {
-					rs = rs[:400]
+				rs = strings.Join(strings.Fields(rs), " ")
+				if len(rs) > 160 {
+					rs = rs[:160]
 				}
 				say("STALL", map[string]interface{}{"idle_ms": idle.Milliseconds(), "store": r.node.Angine.Height(), "round_state": rs})
 			case <-time.After(500 * time.Millisecond):
